@@ -259,3 +259,33 @@ def run_scripts(records: list[dict], shard: int = 25) -> list[dict]:
     for r in res:
         r.pop("expr", None)
     return res
+
+
+def _summary_only(rec: dict) -> str:
+    warnings.filterwarnings("ignore")
+    import logging
+    logging.disable(logging.CRITICAL)
+    from sqllineage.config import SQLLineageConfig
+    from sqllineage.core.metadata.dummy import DummyMetaDataProvider
+    from sqllineage.runner import LineageRunner
+    md = rec.get("metadata")
+    provider = DummyMetaDataProvider(md) if md else DummyMetaDataProvider()
+    cfgd = {k: v for k, v in (rec.get("config") or {}).items() if v not in ("", False, None)}
+    try:
+        lr = LineageRunner(rec["sql"], dialect=rec.get("dialect", "ansi"), metadata_provider=provider,
+                           silent_mode=rec.get("silent", False))
+        if cfgd:
+            with SQLLineageConfig(**cfgd):
+                lr._eval()
+                return summary(lr)
+        lr._eval()
+        return summary(lr)
+    except Exception as e:
+        return "ERR:" + type(e).__name__
+
+
+def summaries(records: list[dict]) -> list[str]:
+    """what the user sees, for many (sql, dialect, metadata, config) at once"""
+    ctx = mp.get_context("fork")
+    with ctx.Pool(min(NCPU, 16)) as pool:
+        return pool.map(_summary_only, records, chunksize=8)
